@@ -170,6 +170,19 @@ impl RepositoryEditor {
         self.sign_targets_editor(keys).await?;
         let targets = self.signed_targets.clone().context(error::NoTargetsSnafu)?;
         let delegated_targets = targets.signed.signed_delegated_targets();
+        // A repository in which a delegated role does not meet the threshold of its delegating
+        // role cannot be loaded by any client, so refuse to sign it.
+        for role in &delegated_targets {
+            let (name, role) = role.clone().targets();
+            KeyHolder::Delegations(
+                targets
+                    .signed
+                    .parent_of(&name)
+                    .context(error::DelegateMissingSnafu { name: name.clone() })?
+                    .clone(),
+            )
+            .verify_role(&role, &name)?;
+        }
         let signed_targets = SignedRole::from_signed(targets)?;
 
         let signed_delegated_targets = if delegated_targets.is_empty() {
